@@ -232,6 +232,33 @@ def ops_part(chk):
             cases.append((case, answers, evs, obs))
             chk.case(("ops", combo, tuple(evs), v2), sample=dict(patterns=combo, events=evs[:8], acked=obs["acked"]) if len(cases) == 300 else None)
     chk.count("answer_pattern_sequences", len(cases))
+    # large caches: more than a thousand data points pending at one transmission (where an implementation might split a
+    # transmission into several requests), under all sequences of up to three answer patterns
+    combos = [c for L in (1, 2, 3) for c in itertools.product(small, repeat=L)]
+    rng.shuffle(combos)
+    nlarge = 0
+    for combo in combos[:(24 if chk.tier == "quick" else len(combos))]:
+        answers = [a for p in combo for a in PATTERNS[p]]
+        serial = itertools.count(1)
+        evs = []
+        t = 1000
+        for j in range(len(combo)):
+            m = rng.choice([1001, 1200, 2100]) if j == 0 else rng.choice([0, 3, 1100])
+            nr = rng.randint(1, 3)
+            evs += [("add", rng.randrange(nr), next(serial)) for _ in range(m)]
+            if j < len(combo) - 1:
+                t += 31
+                evs.append(("send", t))
+        evs.append(("close",))
+        v2 = rng.random() < 0.5
+        obs = run_ops(runs, answers, evs, v2)
+        case = dict(patterns=combo, events="%d events, %d data points (large cache)" % (len(evs), sum(1 for e in evs if e[0] == "add")),
+                    event_list=evs, api_v2=v2)
+        oracle_ops(chk, case, evs, answers, obs, True)
+        cases.append((case, answers, evs, obs))
+        chk.case(("large", combo, len(evs), v2))
+        nlarge += 1
+    chk.count("large_cache_sequences", nlarge)
     # random long operation sequences
     nrand = 300 if chk.tier == "quick" else 3000
     for i in range(nrand):
